@@ -410,7 +410,7 @@ Q(id='C11.bpm_block', props=['C11', 'C12'], cls='B', harness='c11_bpm_block.c', 
 # =========================================================================== C16 lifecycle
 C16_SRCS = ['lib/src/msa_alloc.c', 'lib/src/msa_op.c', 'lib/src/alphabet.c', 'lib/src/task.c', 'lib/src/aln_mem.c', 'lib/src/aln_param.c']
 Q(id='C16.arr_to_msa', props=['C16', 'C05', 'C03'], cls='B', harness='c16_lifecycle.c', entry='h_c16_arr_to_msa',
-  mode='wrap', unwind=8, timeout=900, leak_check=True, object_bits=10, loops_files=['msa_alloc.shrink.loops'], shrink=True, defs=['-DKV_CAP=2', '-DKV_SEQCAP=2'],
+  mode='wrap', unwind=8, unwindset={'vsnprintf.0': 260, 'vsnprintf.1': 260}, timeout=900, leak_check=True, object_bits=10, loops_files=['msa_alloc.shrink.loops'], shrink=True, defs=['-DKV_CAP=2', '-DKV_SEQCAP=2'],
   funcs=['kalign_arr_to_msa', 'detect_alphabet', 'detect_aligned', 'set_sip_nsip', 'kalign_free_msa'],
   srcs=C16_SRCS, native_srcs=['lib/src/tldevel.c'] + C16_SRCS,
   trusted=[TRUST_MSG, A_LOG], assumptions=[A_NOFAIL, A_WRAP, 'bounded: 2 sequences of 2 and 3 letters; array-API precondition: residues are ASCII letters',
